@@ -85,6 +85,19 @@ func Compile(c *gen.Case) (*Compiled, error) {
 	return CompileOrder(c, nil)
 }
 
+// CompileInSim compiles the case as a simulation of its own when none is running, so that the
+// scanner goroutines are tasks that have provably finished before it returns.
+func CompileInSim(c *gen.Case) (cc *Compiled, err error) {
+	if simrt.Active() {
+		return Compile(c)
+	}
+	res := simrt.Run(simrt.Config{Budget: 500_000_000}, func() { cc, err = Compile(c) })
+	if res.Budget || res.Deadlock || res.MainPanic != nil {
+		return nil, fmt.Errorf("compile did not finish normally in the simulator (budget=%v deadlock=%v panic=%v)", res.Budget, res.Deadlock, res.MainPanic != nil)
+	}
+	return cc, err
+}
+
 // CompileOrder compiles with an explicit file insertion order.
 func CompileOrder(c *gen.Case, order []int) (*Compiled, error) {
 	b := NewBundle(c, order)
